@@ -27,6 +27,8 @@ def opOfJson (j : Json) : Option Op :=
     | [.str "rejectUnless", .str k] => some (.rejectUnless k)
     | [.str "rejectIf", .str k, v] => some (.rejectIf k (toV v))
     | [.str "loop"] => some .loop
+    | [.str "pollute"] => some .pollute
+    | [.str "forin", .str k] => some (.forin k)
     | [.str "emitBad"] => some (.emitBad ":type")
     | [.str "emitBad", .str k] => some (.emitBad (":" ++ k))
     | _ => none
